@@ -128,11 +128,12 @@ def build_world(ctx):
 
 
 # ------------------------------------------------------------------ programs -> paths -> TLA+ constants
-def enum_paths(prog, defers, written, limit=128):
+def enum_paths(prog, defers, written, limit=128, keep_forward=False):
     out = []
 
     def shared(ins):
-        return ins["op"] in LOCKOPS or (ins["op"] in ("read", "write") and ins["v"] in written)
+        return ins["op"] in LOCKOPS or (ins["op"] in ("read", "write") and ins["v"] in written) \
+            or (keep_forward and ins["op"] == "forward")
 
     def walk(i, acc, ds):
         steps = 0
@@ -180,7 +181,13 @@ def mock_paths(methods):
     """methods: extracted methods of one mock struct -> {op name: [path,...]} (path = list of (op, mu, v, kind))"""
     by = {m["name"]: m for m in methods}
     written = {i["v"] for m in methods for i in m["prog"] + [x for d in m["defers"] for x in d] if i["op"] == "write"}
-    return {o: enum_paths(by[n]["prog"], by[n]["defers"], written) for o, n in OPS.items() if n in by}
+    out = {o: enum_paths(by[n]["prog"], by[n]["defers"], written) for o, n in OPS.items() if n in by}
+    # the same call paths with the entry into the user's function kept as an instruction ("forward"): only for the
+    # order configuration (RecordedBeforeFuncEntered), the interleaving configurations do not need the extra step
+    for o in ("call:A", "call:B"):
+        if OPS[o] in by:
+            out["fw:" + o] = enum_paths(by[OPS[o]]["prog"], by[OPS[o]]["defers"], written, keep_forward=True)
+    return out
 
 
 def tla_paths(paths):
@@ -191,6 +198,8 @@ def tla_paths(paths):
 
 
 def run_module(name, paths):
+    fw = {o[3:]: ps for o, ps in paths.items() if o.startswith("fw:")}
+    paths = {o: ps for o, ps in paths.items() if not o.startswith("fw:")}
     ops = set(paths)
     alpha = {
         "AlphaFull": [o for o in ("call:A", "call:B", "calls:A", "resetm:A", "resetall") if o in ops],
@@ -199,11 +208,18 @@ def run_module(name, paths):
         "AlphaAll": [o for o in ("call:A", "calls:A", "resetall") if o in ops],
         "AlphaTwo": [o for o in ("call:A", "call:B", "resetall", "calls:A") if o in ops],
     }
-    return ("---- MODULE %s ----\nEXTENDS MatryerConc\nRunPaths == %s\n" % (name, tla_paths(paths)) +
+    return ("---- MODULE %s ----\nEXTENDS MatryerConc\nRunPaths == %s\nRunPathsFw == %s\nAlphaFw == {%s}\n"
+            % (name, tla_paths(paths) if paths else "<< >>", tla_paths(fw) if fw else "<< >>", ", ".join(json.dumps(o) for o in sorted(fw))) +
             "".join("%s == {%s}\n" % (a, ", ".join(json.dumps(o) for o in l)) for a, l in alpha.items()) + "====\n")
 
 
 INVS = "INVARIANTS NoUnlockedAccess NoLostUpdate NoBadUnlock NoLostOrDuplicatedRecord RecordIsOneCallsArgs"
+
+
+def order_cfg():
+    """one goroutine, one operation, every control path of the call methods with the function entry kept"""
+    return ("SPECIFICATION Spec\nCONSTANTS\n  Paths <- RunPathsFw\n  Alphabet <- AlphaFw\n  Gs = {g1}\n  K = 1\n"
+            + INVS + " RecordedBeforeFuncEntered\n")
 
 
 def conc_cfg(n, k, alpha, live=False):
@@ -358,7 +374,8 @@ def run(ctx):
     bt.start()
 
     # ------------------------------------------------------------ 2. model checking of the extracted programs
-    groups = {}      # canonical path set -> [mock names]
+    groups = {}      # canonical path set (interleaving configurations) -> [mock names]
+    fwgroups = {}    # canonical call paths with the function entry kept (order configuration) -> [mock names]
     notes = set()
     for k, *_ in OPT_PKGS:
         fi = info["m%d" % k]
@@ -372,7 +389,10 @@ def run(ctx):
             paths = mock_paths(ms)
             if "call:A" not in paths or "calls:A" not in paths:
                 raise MachineryError("m%d.Moq%s lacks A or ACalls" % (k, n))
+            fwp = {o: ps for o, ps in paths.items() if o.startswith("fw:")}
+            paths = {o: ps for o, ps in paths.items() if not o.startswith("fw:")}
             groups.setdefault(json.dumps(paths, sort_keys=True), []).append("m%d/%s" % (k, n))
+            fwgroups.setdefault(json.dumps(fwp, sort_keys=True), []).append("m%d/%s" % (k, n))
     for nt in sorted(notes)[:5]:
         ctx.note("extraction: " + nt)
     if thorough:
@@ -389,10 +409,19 @@ def run(ctx):
         txt = run_module(mod, paths)
         for tag, n, k, alpha, live in shapes:
             jobs.append(("g%d-%s" % (gi, tag), mod, txt, conc_cfg(n, k, alpha, live)))
+    fl = sorted(fwgroups.items(), key=lambda kv: kv[1])
+    for fi_, (pj, mocks) in enumerate(fl):
+        mod = "MatryerConcOrder%d" % fi_
+        jobs.append(("f%d-order1x1" % fi_, mod, run_module(mod, json.loads(pj)), order_cfg()))
     # self-test: the same model with the lock instructions of the recording path removed MUST fail
-    p0 = json.loads(gl[0][0])
+    p0 = dict(json.loads(gl[0][0]))
+    p0.update(json.loads(fl[0][0]))
     broken = dict(p0)
     broken["call:A"] = [[x for x in p if x[0] not in LOCKOPS] for p in p0["call:A"]]
+    # ... and with the function entered before the append, the order configuration MUST fail
+    late = dict(p0)
+    late["fw:call:A"] = [[x for x in p if x[0] == "forward"] + [x for x in p if x[0] != "forward"] for p in p0["fw:call:A"]]
+    jobs.append(("selftest-late-record", "MatryerConcLate", run_module("MatryerConcLate", late), order_cfg()))
     jobs.append(("selftest-nolock", "MatryerConcBroken", run_module("MatryerConcBroken", broken), conc_cfg(2, 2, "AlphaOne")))
     results = {}
     par = 4 if thorough else 5
@@ -409,14 +438,14 @@ def run(ctx):
         t.join()
     tick(ctx, "tlc_interleavings")
     predictions = {}    # mock name -> [violated property]
-    for gi, (pj, mocks) in enumerate(gl):
-        for tag, *_ in shapes:
-            r = results.get("g%d-%s" % (gi, tag))
+    for gi, (pj, mocks) in [("g%d" % i, x) for i, x in enumerate(gl)] + [("f%d" % i, x) for i, x in enumerate(fl)]:
+        for tag in ([x[0] for x in shapes] if gi[0] == "g" else ["order1x1"]):
+            r = results.get("%s-%s" % (gi, tag))
             if r is None:
                 raise MachineryError("TLC timed out on MatryerConc (%s, group of %s)" % (tag, mocks[:3]))
             ctx.cov["states"] += r.distinct
             ctx.cov["transitions"] += r.generated
-            ctx.cov.setdefault("tlc_runs_detail", {})["g%d-%s" % (gi, tag)] = {"distinct": r.distinct, "generated": r.generated,
+            ctx.cov.setdefault("tlc_runs_detail", {})["%s-%s" % (gi, tag)] = {"distinct": r.distinct, "generated": r.generated,
                                                                             "seconds": round(r.wall, 1), "violated": r.violated}
             if r.violated:
                 for mname in mocks:
@@ -428,6 +457,9 @@ def run(ctx):
     st = results.get("selftest-nolock")
     if st is None or not st.violated:
         raise MachineryError("self-test: MatryerConc did not fail with the lock instructions removed from the recording path")
+    st = results.get("selftest-late-record")
+    if st is None or st.violated != "RecordedBeforeFuncEntered":
+        raise MachineryError("self-test: the order configuration did not fail with the function entered before the append")
     for mname, props in sorted(predictions.items())[:6]:
         ctx.note("model-level prediction for %s: %s violated on the extracted program (the stress run decides)" % (mname, ", ".join(props)))
 
@@ -526,7 +558,7 @@ def run(ctx):
         return {"level": "model_checking", "exhaustive": False}
     if len(targets) < NT:
         raise MachineryError("vacuous: stress ran on %d targets only" % len(targets))
-    for need in ("calls", "concurrent_reads", "concurrent_resets", "testify_calls", "testify_concurrent_on", "testify_expecter_rounds", "testify_concurrent_first_expect", "testify_concurrent_constructors", "testify_concurrent_typed_on", "recorder_targets", "histories"):
+    for need in ("calls", "concurrent_reads", "concurrent_resets", "testify_calls", "testify_concurrent_on", "testify_expecter_rounds", "testify_concurrent_first_expect", "testify_concurrent_constructors", "testify_concurrent_typed_on", "recorder_targets", "probe_calls", "histories"):
         if not stats.get(need):
             raise MachineryError("vacuous: stress statistics lack %s" % need)
     if predictions and not n_viol:
